@@ -36,6 +36,8 @@ KERNEL = "plot/utils.py::hist2d"
 H2D = "plot/histogram2d.py::histogram2d"
 PL = "plot/histogram2d.py::_parse_limit"
 
+from . import hist_folds as hf
+
 
 def r1_no_shared_rmw(run, tree):
     run.rule("C05.R1", "no shared read-modify-write inside a prange body", "parallel-loop write classification",
@@ -294,268 +296,16 @@ def r2_kernel_index_logic(run, tree):
 
 # ------------------------------------------------------------------------------------------ limits
 def r5_limits(run, tree):
-    run.rule("C05.R5", "limits: Quantity converted to the axis unit; automatic range strictly contains the data; log handling",
-             "D6 attribute discipline + D7 + D1", "pint API", floor=6)
-    fi = tree.func(PL)
-    run.analysed(fi)
-    pn = params(fi)
-    if len(pn) != 4:
-        run.unresolved(PL, fi.where(), "signature changed")
-        return
-    LIMIT, X, LOGX, RED = pn
-    # (a) the Quantity branch converts to x.unit
-    conv = None
-    for n in walk_no_nested(fi.node):
-        if isinstance(n, ast.Call) and isinstance(n.func, ast.Attribute) and n.func.attr == "to" and is_name(n.func.value, LIMIT):
-            conv = n
-    if conv is None:
-        run.violated(PL + "::quantity-conversion", fi.where(), "a Quantity limit is not converted with .to(<axis unit>)",
-                     "xmin=1*km on an axis in m is taken as 1")
-    else:
-        arg = conv.args[0] if conv.args else None
-        ok = arg is not None and norm(arg) in ("%s.unit" % X, "%s._unit" % X)
-        detail = "limit.to(%s)" % (norm(arg) if arg is not None else "")
-        if arg is not None and norm(arg).startswith("%s.unit." % X):
-            detail += ": Array.unit is a pint Unit, which has no attribute %s" % norm(arg).split(".")[-1]
-        run.ob(PL + "::quantity-conversion", ok, fi.where(conv), detail,
-               "every explicit limit given as a Quantity raises AttributeError / is converted to the wrong unit")
-        # .magnitude taken after conversion
-        par = [n for n in walk_no_nested(fi.node) if isinstance(n, ast.Attribute) and n.value is conv]
-        run.ob(PL + "::magnitude-after-conversion", bool(par) and par[0].attr in ("magnitude", "m"), fi.where(conv),
-               "converted limit used via .%s" % (par[0].attr if par else "?"), "a Quantity reaches the numba kernel")
-    # (b) truth table of _parse_limit
-    table = []
-    for path in enumerate_paths(fi.node.body):
-        conds = {}
-        for it in path:
-            if it[0] == "test":
-                conds[norm(it[1])] = it[2]
-        table.append((conds, path))
-    auto_min = auto_max = explicit_log = False
-    for conds, path in table:
-        rets = [it[1] for it in path if it[0] == "stmt" and isinstance(it[1], ast.Return)]
-        stmts = [norm(it[1]) for it in path if it[0] == "stmt"]
-        if conds.get("%s is None" % LIMIT) is True:
-            if conds.get("%s == 'min'" % RED) is True and any("finmin(%s.values)" % X in s for s in stmts) and "autox = True" in stmts:
-                auto_min = True
-            if conds.get("%s == 'max'" % RED) is True and any("finmax(%s.values)" % X in s for s in stmts) and "autox = True" in stmts:
-                auto_max = True
-        elif conds.get("%s is None" % LIMIT) is False and conds.get(LOGX) is True:
-            if any(s == "%s = np.log10(%s)" % (LIMIT, LIMIT) for s in stmts):
-                explicit_log = True
-    run.ob(PL + "::automatic-min", auto_min, fi.where(), "missing lower limit -> finite minimum of the data, flagged automatic: %s" % auto_min,
-           "automatic lower limit is not the finite minimum")
-    run.ob(PL + "::automatic-max", auto_max, fi.where(), "missing upper limit -> finite maximum of the data, flagged automatic: %s" % auto_max,
-           "automatic upper limit is not the finite maximum")
-    run.ob(PL + "::explicit-limit-on-log-axis", explicit_log, fi.where(), "explicit limit on a log axis is log10-transformed: %s" % explicit_log,
-           "xmin=10 on a log axis is compared with log10 of the data")
-    check_padding(run, tree)
+    run.rule("C05.R5", "limits: Quantity converted to the axis unit; explicit limits log10'd on log axes and otherwise untouched; a missing limit is "
+             "the FINITE min/max of the data and the automatic range strictly contains the data", "D7 fold of histogram2d/_parse_limit/finmin/finmax "
+             "with symbolic numpy values + D1 on the scalars", "pint API", floor=6)
+    hf.check_hist2d(run, tree, aspects=("limits",))
 
 
-class PadEval(Evaluator):
-    """D1 evaluation of the statements of histogram2d that compute the final limits, in the mode
-    'all limits automatic, non-degenerate range': symbols mx < Mx (data extremes)."""
-
-    def __init__(self, tree, fi, env, flags):
-        super().__init__(env)
-        self.tree, self.fi, self.flags = tree, fi, flags
-
-    def ev_Name(self, node):
-        if node.id in self.env:
-            return self.env[node.id]
-        if node.id == "abs":
-            return lambda v: v  # only used in the degenerate branch
-        raise Unsupported("name %s" % node.id)
-
-    def compare(self, node, op, a, b):
-        if isinstance(a, Poly) and isinstance(b, Poly) and isinstance(op, (ast.Eq, ast.NotEq)):
-            eq = (a == b)
-            if not eq and (a - b).symbols():
-                eq = False  # distinct symbols: the non-degenerate mode
-            return eq if isinstance(op, ast.Eq) else not eq
-        return super().compare(node, op, a, b)
-
-    def call(self, node, func, args, kwargs):
-        callee = self.tree.resolve_call(self.fi, node)
-        if isinstance(callee, FuncInfo):
-            sub = PadEval(self.tree, callee, {}, self.flags)
-            return sub.run_function(callee.node, args, kwargs)
-        if callable(func):
-            return func(*args, **kwargs)
-        raise Unsupported("call %s" % norm(node.func))
-
-    def ev_Call(self, node):
-        callee = self.tree.resolve_call(self.fi, node)
-        if isinstance(callee, FuncInfo):
-            args = self.ev_seq(node.args)
-            kwargs = {k.arg: self.ev(k.value) for k in node.keywords if k.arg}
-            sub = PadEval(self.tree, callee, {}, self.flags)
-            return sub.run_function(callee.node, args, kwargs)
-        return super().ev_Call(node)
+def r6_r7_layers(run, tree):
+    run.rule("C05.R6", "axis separation (x kernel arguments from x only, y from y only); default layer counts points; one slot per layer; "
+             "mean = sum / counts; mask = (counts == 0)", "D7 fold of histogram2d", "", floor=2)
+    hf.check_hist2d(run, tree, aspects=("layers",))
 
 
-def check_padding(run, tree):
-    fi = tree.func(H2D)
-    run.analysed(fi)
-    LIMS = ("xmin", "xmax", "ymin", "ymax")
-    for auto_label, autos in (("all-automatic", (True, True, True, True)), ("only-upper-automatic", (False, True, False, True)),
-                              ("only-lower-automatic", (True, False, True, False))):
-        env = {"xmin": S("mx"), "xmax": S("Mx"), "ymin": S("my"), "ymax": S("My")}
-        flag_names = {}
-        # find the flag names bound by the _parse_limit calls
-        started = False
-        slice_stmts = []
-        for st in fi.node.body:
-            if isinstance(st, ast.Assign) and isinstance(st.value, ast.Call) and isinstance(tree.resolve_call(fi, st.value), FuncInfo) \
-                    and tree.resolve_call(fi, st.value).qual == PL and isinstance(st.targets[0], ast.Tuple):
-                tl, tf = st.targets[0].elts
-                flag_names[tl.id] = tf.id
-                started = True
-                continue
-            if not started:
-                continue
-            names = {n.id for n in ast.walk(st) if isinstance(n, ast.Name)}
-            targets = set()
-            for n in ast.walk(st):
-                if isinstance(n, (ast.Assign, ast.AugAssign)):
-                    for t in (n.targets if isinstance(n, ast.Assign) else [n.target]):
-                        for x in ast.walk(t):
-                            if isinstance(x, ast.Name):
-                                targets.add(x.id)
-            if targets and targets <= (set(LIMS) | {"dx", "dy"}):
-                slice_stmts.append(st)
-            elif any(isinstance(n, ast.Call) and norm(n.func) in ("np.linspace", "np.logspace") for n in ast.walk(st)):
-                break
-        if set(flag_names) != set(LIMS):
-            run.unresolved(H2D + "::limit-flags", fi.where(), "could not pair the four limits with their automatic flags: %s" % flag_names)
-            return
-        for lim, a in zip(LIMS, autos):
-            env[flag_names[lim]] = a
-        ev = PadEval(tree, fi, env, flag_names)
-        try:
-            ev.exec_block(slice_stmts)
-        except (Unsupported, RaisedInModel, ReturnValue) as e:
-            run.unresolved(H2D + "::padding[%s]" % auto_label, fi.where(), "cannot evaluate the limit computation: %s" % e)
-            continue
-        for lim, a, (lo, hi) in zip(LIMS, autos, (("mx", "Mx"), ("mx", "Mx"), ("my", "My"), ("my", "My"))):
-            v = env[lim]
-            base = S(lo) if lim.endswith("min") else S(hi)
-            construct = "%s::final-%s[%s]" % (H2D, lim, auto_label)
-            if not isinstance(v, Poly):
-                run.unresolved(construct, fi.where(), "final %s is %r" % (lim, v))
-                continue
-            diff = v - base
-            span = S(hi) - S(lo)
-            # diff must be c*span with sign(c): lower: c <= 0 (auto: c<0 not required), upper: auto -> c > 0; explicit: c == 0
-            c = None
-            if diff.t == {}:
-                c = F(0)
-            else:
-                co = diff.coeff_of(hi, 1)
-                if co.is_const() and (diff - co * span).t == {}:
-                    c = co.const_value()
-            if c is None:
-                run.violated(construct, fi.where(), "final %s = %r is not of the form limit + c*(max-min)" % (lim, v),
-                             "the grid does not span the data / the requested range")
-                continue
-            if not a:
-                run.ob(construct, c == 0, fi.where(), "explicit %s is changed by %s*(max-min)" % (lim, c),
-                       "an explicit %s is moved: points outside the requested range are counted (or points inside dropped)" % lim)
-            elif lim.endswith("max"):
-                run.ob(construct, c > 0, fi.where(), "automatic upper limit = data max + %s*(max-min)" % c,
-                       "the point(s) at the data maximum fall on the open upper edge and are binned nowhere")
-            else:
-                run.ob(construct, c <= 0, fi.where(), "automatic lower limit = data min + %s*(max-min)" % c,
-                       "the point(s) at the data minimum fall below the grid")
-
-
-def r6_axis_separation(run, tree):
-    run.rule("C05.R6", "axis separation: x-axis kernel arguments depend only on x inputs, y-axis only on y inputs",
-             "D4 dependence analysis (interprocedural)", "", floor=6)
-    fi = tree.func(H2D)
-    an = DepAnalysis(tree)
-    an.analyse(fi)
-    run.analysed(fi)
-    site = None
-    for cid, (node, f, args, kw) in an.call_args.items():
-        callee = tree.resolve_call(f, node)
-        if f.qual == fi.qual and isinstance(callee, FuncInfo) and callee.qual == KERNEL:
-            site = (node, args, kw, callee)
-    if site is None:
-        run.unresolved(H2D + "::kernel-call", fi.where(), "call of hist2d not found")
-        return
-    node, args, kw, callee = site
-    pn = params(callee)
-    vals = dict(zip(pn, args))
-    vals.update(kw)
-    X_IN = {"x", "xmin", "xmax", "logx"}
-    Y_IN = {"y", "ymin", "ymax", "logy"}
-
-    def roots(v):
-        return {lab.split(".")[0].split("[")[0] for lab in clean(v)}
-    for name, own, other, need in (("x", X_IN, Y_IN, {"x"}), ("xmin", X_IN, Y_IN, {"x", "xmin"}), ("xmax", X_IN, Y_IN, {"x", "xmax"}),
-                                   ("y", Y_IN, X_IN, {"y"}), ("ymin", Y_IN, X_IN, {"y", "ymin"}), ("ymax", Y_IN, X_IN, {"y", "ymax"})):
-        if name not in vals:
-            run.unresolved("%s::kernel-arg[%s]" % (H2D, name), fi.where(node), "argument not passed")
-            continue
-        r = roots(vals[name])
-        cross = sorted(r & other)
-        missing = sorted(need - r)
-        run.ob("%s::kernel-arg[%s]" % (H2D, name), not cross and not missing, fi.where(node),
-               "depends on %s%s%s" % (sorted(r), "; crosses to the other axis through %s" % cross if cross else "",
-                                      "; does not depend on %s" % missing if missing else ""),
-               "the %s passed to the kernel is influenced by the other axis' limits/flags (e.g. padded under the wrong "
-               "automatic flag) or ignores its own input" % name)
-    for name, need in (("nx", "resolution"), ("ny", "resolution")):
-        if name in vals:
-            r = roots(vals[name])
-            run.ob("%s::kernel-arg[%s]" % (H2D, name), need in r, fi.where(node), "depends on %s" % sorted(r),
-                   "the resolution argument is ignored", nontrivial=False)
-
-
-def r7_layer_semantics(run, tree):
-    run.rule("C05.R7", "layer semantics: default layer counts points; mean = sum / counts; mask = (counts == 0)", "path rule", "",
-             floor=4)
-    fi = tree.func(H2D)
-    src_stmts = list(walk_no_nested(fi.node))
-    # default layer
-    default_ok = False
-    for n in src_stmts:
-        if isinstance(n, ast.If) and norm(n.test) in ("len(layers) == 0", "not layers"):
-            body = " ".join(norm(s) for s in n.body)
-            default_ok = "np.ones_like(xvals)" in body or "np.ones(" in body
-    run.ob(H2D + "::default-layer", default_ok, fi.where(), "without layers the binned quantity is %s" % (
-        "an array of ones (counts)" if default_ok else "not an array of ones"), "the default histogram is not the number of points per bin")
-    # kernel results
-    res = None
-    for n in src_stmts:
-        if isinstance(n, ast.Assign) and isinstance(n.value, ast.Call) and isinstance(tree.resolve_call(fi, n.value), FuncInfo) and \
-                tree.resolve_call(fi, n.value).qual == KERNEL and isinstance(n.targets[0], ast.Tuple) and len(n.targets[0].elts) == 2:
-            res = (n.targets[0].elts[0].id, n.targets[0].elts[1].id)
-    if res is None:
-        run.unresolved(H2D + "::kernel-result", fi.where(), "`binned, counts = hist2d(...)` not found")
-        return
-    B, C = res
-    mask_ok = any(isinstance(n, ast.Assign) and norm(n.value) in ("%s == 0" % C, "%s < 1" % C, "%s <= 0" % C) for n in src_stmts)
-    run.ob(H2D + "::mask", mask_ok, fi.where(), "mask = %s" % ("counts == 0" if mask_ok else "something else"),
-           "bins without points are not masked (or bins with points are)")
-    mean_ok = False
-    for n in src_stmts:
-        if isinstance(n, ast.If) and isinstance(n.test, ast.Compare) and const_value(n.test.comparators[0]) == "mean":
-            for s in ast.walk(n):
-                if isinstance(s, ast.AugAssign) and isinstance(s.op, ast.Div) and is_name(s.value, C) and root_name(s.target) == B:
-                    mean_ok = "operations[" in norm(n.test) or "operation" in norm(n.test)
-    run.ob(H2D + "::mean", mean_ok, fi.where(), "operation 'mean' %s" % ("divides the summed layer by the counts" if mean_ok else
-                                                                        "is not sum/counts"), "a 'mean' layer shows the sum")
-    masked = [n for n in src_stmts if isinstance(n, ast.Call) and norm(n.func).endswith("masked_where") and n.args and
-              norm(n.args[0]) == "mask"]
-    run.ob(H2D + "::mask-applied", bool(masked), fi.where(), "%d layers masked with the counts mask" % len(masked),
-           "empty bins shown as 0", nontrivial=False)
-    # the per-layer operation is the merged one
-    ops_ok = any(isinstance(n, ast.Call) and isinstance(n.func, ast.Attribute) and n.func.attr == "append" and
-                 norm(n.func.value) == "operations" and norm(n.args[0]).endswith(".operation") for n in src_stmts)
-    run.ob(H2D + "::operation-from-merged-layer", ops_ok, fi.where(), "operations collected from the merged layers: %s" % ops_ok,
-           "a layer-level operation='mean' is ignored", nontrivial=False)
-
-
-RULES = [r1_no_shared_rmw, r2_kernel_index_logic, r5_limits, r6_axis_separation, r7_layer_semantics]
+RULES = [r1_no_shared_rmw, r2_kernel_index_logic, r5_limits, r6_r7_layers]
